@@ -152,6 +152,18 @@ def case_oracle(case):
                 f = changed_key(n, n2, f"{kind}.{name}")
                 if f:
                     return f, info
+                if isinstance(value, np.dtype) and value.itemsize > 1:
+                    # the same type in the other byte order denotes other
+                    # bytes (and compares unequal)
+                    try:
+                        n3 = reflect.replace_field(
+                            n, name, value.newbyteorder("S"))
+                    except Exception:  # noqa: BLE001
+                        continue
+                    info["mutations"] += 1
+                    f = changed_key(n, n3, f"{kind}.{name}[byte order]")
+                    if f:
+                        return f, info
         for n in nodes:
             if isinstance(n, pt.array.DataWrapper) and isinstance(
                     n.data, np.ndarray):
